@@ -29,6 +29,8 @@ func (c *Case) check() (string, string) {
 		f = c.runIface()
 	case "var":
 		f = c.runVar()
+	case "fwd":
+		f = c.runFwd()
 	default:
 		return "harness", "unknown direction " + c.Dir
 	}
